@@ -62,6 +62,7 @@ fn main() {
             let mut rep = Report::new("C02", tier, "model_checking", "sim");
             rep.rule = "stateless deviation-bounded enumeration: writer policy grid (capacity, chunking, write_all/try_write, close mode, reader buffers incl. 0 and peek, topology, split halves, reader start) x per-round choices on a permanently held link (which in-flight message is delivered, whether the reader reads); prefix/EOF safety on every read, delivery + EOF after a fair suffix".into();
             run_dfs(&mut rep, "tcp-stream-held-link", tier.pick(2, 3), wall, move |ch| c02::scenario(ch, thorough));
+            run_dfs(&mut rep, "tcp-stream-timed-latency-bidirectional", tier.pick(1, 2), wall, move |ch| c02::timed_scenario(ch, thorough));
             rep.finish();
         }
         "C08" => {
@@ -236,7 +237,13 @@ fn replay(path: &str) {
     let mut ch = vx_core::Chooser::from_choices(&choices);
     let thorough = v["scenario"].as_str().map(|s| s.contains("tier=thorough")).unwrap_or(false);
     let e = match prop.as_str() {
-        "C02" => c02::scenario(&mut ch, thorough),
+        "C02" => {
+            if v["scenario"].as_str().map(|s| s.starts_with("c02-timed")).unwrap_or(false) {
+                c02::timed_scenario(&mut ch, thorough)
+            } else {
+                c02::scenario(&mut ch, thorough)
+            }
+        }
         "C08" => flow::c08_scenario(&mut ch, thorough),
         "C03" => flow::c03_scenario(&mut ch, thorough),
         "C14" => flow::c14_scenario(&mut ch, thorough),
